@@ -191,23 +191,23 @@ func (c *Check) Finish(verifDir string, selftest map[string]any) int {
 	cov := map[string]any{
 		"explanation": fmt.Sprintf("static analysis of /repo's current working tree (go/packages + go/types + go/ssa, nothing executed): %d obligations (rule, construct) decided over %d functions / %d basic blocks / %d SSA instructions of the %d production functions loaded from %d packages (%d files); each obligation is a structural necessary condition of the property, see rules",
 			len(c.Obs), c.Counters["functions_analysed"], c.Counters["blocks_analysed"], c.Counters["instructions_analysed"], len(c.p.ProdFuncs), len(c.p.Pkgs), c.p.NFiles),
-		"obligations":        len(c.Obs),
-		"discharged":         held,
-		"undecided":          und,
-		"rules":              ruleList,
-		"samples":            samples,
-		"notes":              c.Notes,
-		"counters":           c.Counters,
-		"packages_loaded":    len(c.p.Pkgs),
-		"functions_loaded":   len(c.p.Funcs),
-		"production_funcs":   len(c.p.ProdFuncs),
-		"checker_cmd":        fmt.Sprintf("./run.sh %s %s", c.ID, c.Tier),
-		"trusted_base":       trustedBase,
-		"fixed_findings":     known.fixed,
-		"exhaustive":         false,
-		"evaluations":        len(c.Obs),
+		"obligations":         len(c.Obs),
+		"discharged":          held,
+		"undecided":           und,
+		"rules":               ruleList,
+		"samples":             samples,
+		"notes":               c.Notes,
+		"counters":            c.Counters,
+		"packages_loaded":     len(c.p.Pkgs),
+		"functions_loaded":    len(c.p.Funcs),
+		"production_funcs":    len(c.p.ProdFuncs),
+		"checker_cmd":         fmt.Sprintf("./run.sh %s %s", c.ID, c.Tier),
+		"trusted_base":        trustedBase,
+		"fixed_findings":      known.fixed,
+		"exhaustive":          false,
+		"evaluations":         len(c.Obs),
 		"distinct_nontrivial": len(c.Obs),
-		"rule":               "one evaluation per obligation (rule, construct); all are distinct program constructs",
+		"rule":                "one evaluation per obligation (rule, construct); all are distinct program constructs",
 	}
 	for k, v := range c.Extra {
 		cov[k] = v
